@@ -264,6 +264,11 @@ func (x *Exec) authExchange(c *Client, ui int, m *ref.Msg, st *Step, method int,
 		if x.stop {
 			return rq, before, false
 		}
+		if defect == "" && x.nonceStale && rq.resp != nil && !(rq.resp.Class == ref.ClassError && rq.resp.ErrorCode() == 438) {
+			x.fail([]string{"C03"}, "stale-nonce-accepted", "%s carrying a nonce issued %v ago (%d minute boundaries) was not answered with 438 but with %s", what, nonceAge, nonceMinutes, respDesc(rq.resp))
+
+			return rq, before, false
+		}
 		if rq.resp != nil && rq.resp.Class == ref.ClassError && rq.resp.ErrorCode() == 438 && (defect == "" || defect == "nonce-lower" || defect == "other-realm") {
 			switch {
 			case nonceMinutes <= 60 && nonceAge <= 60*time.Minute:
@@ -628,12 +633,40 @@ func (x *Exec) opRefresh(st *Step) {
 			}
 		}
 	}
+	// lost response: the server's write of the answer fails; the request itself took effect
+	lost := st.RespLost && st.Defect == "" && !c.Stream && !tied && st.Fam == 0 && x.w.cfg.CallbackSleepS == 0
+	if lost {
+		x.w.srvSock.FailWrites(1)
+	}
 	rq, before, proceed := x.authExchange(c, ui, m, st, ref.MethodRefresh, "Refresh")
+	x.w.srvSock.FailWrites(0)
 	if !proceed {
 		return
 	}
 	a := x.m.Allocs[c.Idx]
 	success := rq.resp != nil && rq.resp.Class == ref.ClassSuccess
+	if lost && rq.resp == nil && a != nil && a.User == Users[ui].Name {
+		x.St.inc("response-lost:refresh")
+		switch {
+		case x.nonceStale:
+			return // what got lost was the 438 challenge
+		case !x.nonceFresh:
+			x.resync()
+
+			return
+		}
+		// processed with a valid nonce by the owner: it took effect although the answer never arrived
+		want := grantedLifetime(&x.w.cfg, st.Life)
+		if want == 0 {
+			x.m.remove(c.Idx)
+			x.St.inc("refresh-zero")
+		} else {
+			a.Deadline = x.opStart.Add(want)
+			a.Refreshes++
+		}
+
+		return
+	}
 	user := Users[ui].Name
 	switch {
 	case a == nil:
